@@ -67,7 +67,21 @@ NameTab == [
   tab      |-> [raw |-> "lib\tfoo",        lower |-> "lib\tfoo",        dash |-> "lib\tfoo"],
   newline  |-> [raw |-> "lib\nfoo",        lower |-> "lib\nfoo",        dash |-> "lib\nfoo"],
   textopen |-> [raw |-> "<text>libfoo",    lower |-> "<text>libfoo",    dash |-> "<text>libfoo"],
-  colon    |-> [raw |-> "org.acme:libfoo", lower |-> "org.acme:libfoo", dash |-> "org.acme:libfoo"] ]
+  colon    |-> [raw |-> "org.acme:libfoo", lower |-> "org.acme:libfoo", dash |-> "org.acme:libfoo"],
+  \* names that collide with identifiers / keywords the exporters generate themselves (ToSPDX23's synthetic root
+  \* package "main" with id SPDXRef-Package-main-<uuid>, ids SPDXRef-Package-<sanitised name>-<uuid>, SPDXRef-DOCUMENT,
+  \* NOASSERTION / NONE, the CDX metadata component)
+  rmain    |-> [raw |-> "main",             lower |-> "main",             dash |-> "main"],
+  rmaindash|-> [raw |-> "main-bower-files", lower |-> "main-bower-files", dash |-> "main-bower-files"],
+  rmainsp  |-> [raw |-> "main app",         lower |-> "main app",         dash |-> "main app"],
+  rmainus  |-> [raw |-> "main_loop",        lower |-> "main_loop",        dash |-> "main-loop"],
+  rpackage |-> [raw |-> "Package",          lower |-> "package",          dash |-> "package"],
+  rpkgmain |-> [raw |-> "Package-main-x",   lower |-> "package-main-x",   dash |-> "package-main-x"],
+  rdocument|-> [raw |-> "DOCUMENT",         lower |-> "document",         dash |-> "document"],
+  rspdxref |-> [raw |-> "SPDXRef-x",        lower |-> "spdxref-x",        dash |-> "spdxref-x"],
+  rnoassert|-> [raw |-> "NOASSERTION",      lower |-> "noassertion",      dash |-> "noassertion"],
+  rnone    |-> [raw |-> "NONE",             lower |-> "none",             dash |-> "none"],
+  rscalibr |-> [raw |-> "SCALIBR",          lower |-> "scalibr",          dash |-> "scalibr"] ]
 
 VerTab == [
   plain    |-> "1.0",
@@ -85,6 +99,8 @@ VerTab == [
   newline  |-> "1\n0",
   textopen |-> "<text>1.0",
   upper    |-> "1.0-RC1",
+  noassert |-> "NOASSERTION",
+  zero     |-> "0",
   empty    |-> "" ]
 
 \* canon: leading/trailing/duplicate '/' removed; lower: canon in lower case
